@@ -24,7 +24,7 @@ from harness.core import compare_batch, err_name, run_oracle_cases
 PROP = 'C12'
 PROOF_MODULES = ['Ladybug.Props.C12']
 GREP_MODULES = ['Ladybug.Py', 'Ladybug.Model.Cal', 'Ladybug.Model.AP', 'Ladybug.Model.Wea',
-                'Ladybug.Proofs.C12Lemmas', 'Ladybug.Drv.C12', 'Ladybug.DrvCore']
+                'Ladybug.Proofs.C12Lemmas', 'Ladybug.Proofs.C12Files', 'Ladybug.Drv.C12', 'Ladybug.DrvCore']
 RULE = ('correspondence: _get_datetimes / public datetimes of annual Weas at boundary + random indices for the '
         '12 timesteps x leap x enforce_on_hour; header numbers of random locations (both longitude signs, '
         'integer/fractional/negative zones); to_file_string lines of whole-day (non-wrapping, wrapping, '
@@ -45,8 +45,7 @@ TRUSTED_BASE = [
     'modelled as one value-independent index selection applied to both collections; their composition on the '
     'real code is checked by the oracle only',
     'validate_analysis_period (C13) is used through its effect on the (datetime, value) pairs only (sorted, '
-    'duplicates rejected); the repaired header period of sparse files is not compared; one-line files are not '
-    'generated (C13 finding: single value rejected as duplicate)',
+    'duplicates rejected); the repaired header period of sparse files is not compared',
     'city names are whitespace-free words joined by single blanks (the header parser normalises white space)',
     'click option parsing, CliRunner, Sunpath (C05) and the sky models (C10) are used as given',
 ]
@@ -196,7 +195,7 @@ def _period_moys(ts, leap, stm, std, endm, endd):
 def _rand_sparse(rng, ts, leap, n=None):
     step = 60 // ts
     total = _hours(leap) * ts
-    n = n or rng.choice([2, 3, 5, 8, 20])
+    n = n or rng.choice([1, 2, 3, 5, 8, 20])
     r = rng.random()
     if r < 0.3:                                        # hour window over a few days
         d0 = rng.choice([0, 57, 58, 59, rng.randrange(360)])
@@ -206,7 +205,7 @@ def _rand_sparse(rng, ts, leap, n=None):
         out = [(d0 + d) * 1440 + h * 60 + k * step for d in range(nd) for h in range(h0, h1 + 1)
                for k in range(ts if h < h1 else 1)]
         out = [m for m in out if m < total * step]
-        if len(out) >= 2:
+        if len(out) >= 1:
             return out
     idx = set()
     anchors = [0, 1, total - 1, total - 2, 59 * 24 * ts, 59 * 24 * ts - 1, 60 * 24 * ts - 1, 58 * 24 * ts]
@@ -280,7 +279,7 @@ def correspondence(ctx):
 
     # --- _get_datetimes
     cases = []
-    for ts in ts_list + [7, 8]:
+    for ts in ts_list + ([7] if ctx.quick else [7, 8]):
         for leap in (False, True):
             if ts in (7, 8) and leap:
                 continue
@@ -394,7 +393,7 @@ def correspondence(ctx):
 
     # --- to_file_string
     cases = []
-    budget = ctx.n(40000, 300000)
+    budget = ctx.n(25000, 300000)
     used = 0
     while used < budget:
         ts = rng.choice([1, 1, 2, 3, 4, 6]) if rng.random() < 0.7 else rng.choice(VALID_TS)
@@ -404,7 +403,7 @@ def correspondence(ctx):
         if rng.random() < 0.5:
             stm, std, endm, endd, kind = _rand_period(rng, leap)
             n = len(_period_moys(ts, leap, stm, std, endm, endd))
-            if n > 20000:
+            if n > ctx.n(2500, 20000):
                 continue
             cases.append(('cont', ts, leap, onhour, mode, (stm, std, endm, endd)))
             ctx.count('write:cont_' + kind)
@@ -446,7 +445,7 @@ def correspondence(ctx):
 
     # --- from_file
     cases = []
-    budget = ctx.n(20000, 250000)
+    budget = ctx.n(13000, 250000)
     used = 0
 
     def add_read(ts, leap, lines, tag):
@@ -461,7 +460,7 @@ def correspondence(ctx):
         if r < 0.35:
             stm, std, endm, endd, kind = _rand_period(rng, leap)
             moys = _period_moys(ts, leap, stm, std, endm, endd)
-            if len(moys) > 20000:
+            if len(moys) > ctx.n(2500, 20000):
                 continue
             tag = 'cont_' + kind
         else:
@@ -505,7 +504,7 @@ def correspondence(ctx):
         add_read(60, leap, _lines_of(leap, 60, moys, False, [k % 1000 for k in moys], [k % 997 for k in moys]),
                  'all_minutes')
     for ts in ([1] if ctx.quick else [1, 2, 3, 4]):       # annual files
-        for leap in (False, True):
+        for leap in ((True,) if ctx.quick else (False, True)):
             moys = [k * (60 // ts) for k in range(_hours(leap) * ts)]
             add_read(ts, leap, _lines_of(leap, ts, moys, False, list(range(len(moys))), list(range(len(moys)))),
                      'annual')
@@ -526,7 +525,7 @@ def correspondence(ctx):
 
     # --- from_dict
     cases = []
-    for _ in range(ctx.n(130, 2500)):
+    for _ in range(ctx.n(90, 2500)):
         ts = rng.choice([1, 1, 2, 3, 4, 6, 60])
         leap = rng.random() < 0.5
         r = rng.random()
@@ -841,7 +840,14 @@ def _check_file_rt(w, ts, leap, sig):
     if al:
         return {'required': 'aligned', 'observed': al, 'sig': dict(sig, what='aligned')}
     want = [(mo, da, h, mi, lp, _trunc(a), _trunc(b)) for mo, da, h, mi, lp, a, b in _coll_rows(w)]
-    d = _first_diff(want, _coll_rows(r))
+    got = _coll_rows(r)
+    chrono = all(x[:4] < y[:4] for x, y in zip(want, want[1:]))
+    if not w.is_continuous and not chrono:
+        # sparse rows that are not in calendar order (e.g. filtered from a period that wraps the year end):
+        # a .wea file has no year, the reader returns them in calendar order - same rows as a set
+        # (theorem C12_file_sparse_sorted)
+        want, got = sorted(want), sorted(got)
+    d = _first_diff(want, got)
     if d:
         return {'required': 'same time steps and truncated values', 'observed': d, 'sig': dict(sig, what='rows')}
     if r.timestep != w.timestep or r.is_leap_year != w.is_leap_year:
@@ -851,7 +857,7 @@ def _check_file_rt(w, ts, leap, sig):
         return {'required': 'continuous', 'observed': 'discontinuous', 'sig': dict(sig, what='continuity')}
     if w.is_continuous and r.analysis_period != w.analysis_period:
         return {'required': str(w.analysis_period), 'observed': str(r.analysis_period), 'sig': dict(sig, what='period')}
-    if not w.enforce_on_hour and tuple(r.datetimes) != tuple(w.datetimes):
+    if not w.enforce_on_hour and (w.is_continuous or chrono) and tuple(r.datetimes) != tuple(w.datetimes):
         return {'required': 'same public datetimes', 'observed': _first_diff(list(map(str, w.datetimes)), list(map(str, r.datetimes))),
                 'sig': dict(sig, what='datetimes')}
     lw, lr = w.location, r.location
@@ -880,7 +886,7 @@ def check_case(op, inp):
         hoys = w.hoys
         if len(dts) != n or len(hoys) != n or not w.is_annual or not w.is_continuous:
             return {'required': n, 'observed': len(dts), 'sig': dict(sig, what='length')}
-        idx = range(n) if n <= 40000 or inp.get('full') else sorted(set(inp['idx']))
+        idx = range(n) if n <= 18000 or inp.get('full') else sorted(set(inp['idx']))
         for i in idx:
             r = _ref(leap, 60 * i // ts + sh)
             d = dts[i]
@@ -974,7 +980,7 @@ def check_case(op, inp):
         for row in got:                                       # both values come from one source position
             if row[6] != row[5] + n:
                 return {'required': 'dhi id = dni id + %d' % n, 'observed': row, 'sig': dict(sig, what='pairing')}
-        if inp.get('then_write') and len(r) >= 2 and f['kind'] not in ('moys', 'hoys'):
+        if inp.get('then_write') and len(r) >= 1 and f['kind'] not in ('moys', 'hoys'):
             return _check_file_rt(r, ts, leap, dict(sig, kind='filtered'))
         return None
     if op == 'epw':
@@ -1303,10 +1309,11 @@ def _rand_filter(rng, ts, leap, moys_src, whole_year_only=True, outside_ok=True)
         return {'kind': 'period', 'args': [sm, sd, sh, em, ed, eh]}
     if r < 0.6:
         k = rng.choice([1, 2, 5, 30])
+        kindsel = rng.choice(['moys', 'hoys'])
         pick = sorted(set(rng.choice(moys_src) for _ in range(k)))
-        if outside_ok and rng.random() < 0.2:      # a step that may lie outside a sparse source (ignored there)
+        if (outside_ok or kindsel == 'hoys') and rng.random() < 0.2:      # a step that may lie outside the source (ignored)
             pick.append((pick[-1] + step) % (nd * 1440))
-        return {'kind': rng.choice(['moys', 'hoys']), 'moys': sorted(set(pick))}
+        return {'kind': kindsel, 'moys': sorted(set(pick))}
     if r < 0.85:
         ln = rng.choice([2, 3, 24 * ts, len(moys_src), len(moys_src) + 5])
         pat = [rng.random() < 0.5 for _ in range(ln)]
@@ -1322,13 +1329,13 @@ def _oracle_cases(ctx):
     for c in FIXED_CORPUS:
         yield c
     # time axis
-    for ts in (VALID_TS if big else [1, 2, 3, 4, rng.choice([5, 6, 10, 12])]):
+    for ts in (VALID_TS if big else [1, 2, 4, rng.choice([3, 5, 6])]):
         for leap in (False, True):
             for onhour in ((False, True) if ts == 1 else (False,)):
                 n = _hours(leap) * ts
                 yield 'axis', {'ts': ts, 'leap': leap, 'onhour': onhour, 'idx': _axis_indices(rng, ts, leap, 300)}
     # file and dict round trips of directly built Weas
-    for _ in range(ctx.n(220, 3000) * (3 if ctx.searching else 1)):
+    for _ in range(ctx.n(170, 3000) * (3 if ctx.searching else 1)):
         ts = rng.choice([1, 1, 2, 3, 4, 6]) if rng.random() < 0.7 else rng.choice(VALID_TS)
         leap = rng.random() < 0.5
         mode = rng.choice([0, 1])
@@ -1340,7 +1347,7 @@ def _oracle_cases(ctx):
                    round(rng.uniform(-179, 179), rng.choice([2, 4])), tz, round(rng.uniform(-100, 4000), rng.choice([1, 3]))]
         if rng.random() < 0.5:
             stm, std, endm, endd, kind = _rand_period(rng, leap)
-            if len(_period_moys(ts, leap, stm, std, endm, endd)) > 6000:
+            if len(_period_moys(ts, leap, stm, std, endm, endd)) > ctx.n(2500, 6000):
                 continue
             inp = {'kind': 'partial', 'ts': ts, 'leap': leap, 'period': [stm, std, endm, endd]}
         else:
@@ -1349,12 +1356,12 @@ def _oracle_cases(ctx):
         if loc:
             inp['loc'] = loc
         yield rng.choice(['file_rt', 'file_rt', 'dict_rt']), inp
-    for ts, leap in ([(1, False), (2, True)] if not big else [(t, l) for t in (1, 2, 3, 4, 6) for l in (False, True)]):
+    for ts, leap in ([(1, True)] if not big else [(t, l) for t in (1, 2, 3, 4, 6) for l in (False, True)]):
         yield 'file_rt', {'kind': 'annual', 'ts': ts, 'leap': leap, 'period': [1, 1, 12, 31], 'mode': 0}
         yield 'dict_rt', {'kind': 'annual', 'ts': ts, 'leap': leap, 'period': [1, 1, 12, 31], 'mode': 0}
     # filters (source: annual / partial / sparse), some followed by a file round trip
     bases = {}
-    for _ in range(ctx.n(80, 1400) * (3 if ctx.searching else 1)):
+    for _ in range(ctx.n(60, 1400) * (3 if ctx.searching else 1)):
         ts = rng.choice([1, 1, 2, 3, 4])
         leap = rng.random() < 0.5
         r = rng.random()
@@ -1362,13 +1369,14 @@ def _oracle_cases(ctx):
             inp = {'kind': 'annual', 'ts': ts, 'leap': leap, 'period': [1, 1, 12, 31]}
         elif r < 0.8:
             stm, std, endm, endd, kind = _rand_period(rng, leap)
-            if kind == 'wrap':
-                continue                                  # wrapping sources: C02 finding (continuous filters raise)
             inp = {'kind': 'partial', 'ts': ts, 'leap': leap, 'period': [stm, std, endm, endd]}
         else:
             inp = {'kind': 'sparse', 'ts': ts, 'leap': leap, 'moys': _rand_sparse(rng, ts, leap, 20)}
         src = _moys_of(inp)
         f = _rand_filter(rng, ts, leap, src, inp['kind'] == 'annual', inp['kind'] != 'partial')
+        if f['kind'] == 'moys' and inp['kind'] == 'partial':
+            f['moys'] = [m for m in f['moys'] if m in set(src)] or [src[0]]   # continuous filter_by_moys indexes: C02 hypothesis
+
         if f['kind'] == 'sun_up' and len(src) > 9000:
             continue
         if f['kind'] == 'period' and inp['kind'] != 'annual':
@@ -1379,7 +1387,7 @@ def _oracle_cases(ctx):
         ctx.count('filter:%s_on_%s' % (f['kind'], inp['kind']))
         yield 'filter', inp
     # EPW sources
-    files = _EPWS if big else [rng.choice(_EPWS[:3]), rng.choice(_EPWS[3:])]
+    files = _EPWS if big else [rng.choice(_EPWS)]
     for fn in files:
         leap = fn == 'long_beach_2021.epw' and False
         yield 'epw', {'file': fn, 'ts': 1, 'idx': _axis_indices(rng, 1, False, 50), 'to_wea': True,
@@ -1401,7 +1409,7 @@ def _oracle_cases(ctx):
                        'out': rng.choice(['stdout', 'file'])})
     combos.append({'cmd': 'wea-to-constant', 'assets': 'epw', 'file': 'chicago.epw', 'value': 250, 'out': 'file'})
     if not big:
-        combos = rng.sample(combos[:14], 2) + [combos[14]] + rng.sample(combos[16:], 2)
+        combos = rng.sample(combos[:14], 1) + rng.sample(combos[14:16], 1) + rng.sample(combos[16:], 1)
     for c in combos:
         yield 'cli', c
     # static helpers, daysim, sky models
@@ -1434,19 +1442,23 @@ def oracle(ctx):
     run_oracle_cases(ctx, _oracle_cases(ctx), check_case)
 
 
-LEVEL_TEXT = ('Machine-checked Lean 4 theorems (17) over an executable model of wea.py (on top of the C08/C04 models): '
+LEVEL_TEXT = ('Machine-checked Lean 4 theorems (27) over an executable model of wea.py (on top of the C08/C04 models): '
               'entry i of _get_datetimes and step i of every annual Wea are minute 60*i/ts (+30 when hourly and not '
               'on-hour) for all 12 timesteps, normal and leap, and coincide; whole-day partial data (non-wrapping and '
-              'wrapping) sits on the closed-form grid from its first hour; the (hour, minute) of every written line '
-              'reads back exactly for all 1440 minutes of the day (with the rounding repair, robust to 0.47 min of '
-              'float error; the pinned truncation is characterised exactly - right iff minute % 3 != 2, i.e. only for '
-              'steps that are multiples of 3 minutes - and refuted at 08:20), hourly lines read back to the hour of '
-              'their collection step; header sign conventions invert (latitude/longitude within the %.2f format, time '
-              'zone iff it is a whole number of degrees; counterexample UTC+5:30); written values are the truncation '
-              'toward zero and read back unchanged; a file with the first/last line of a whole-day period and one line '
-              'per step is read as continuous data over exactly that period, by position, and the first/last written '
-              'lines have that shape; dictionary round trip of annual data; both collections stay aligned, pairwise and '
-              'at their own time step, under any common value-independent index selection.')
+              'wrapping) sits on the closed-form grid from its first hour; write -> read is the identity on the time '
+              'axis and the truncated values for annual and partial whole-day data (to_file_string produces one line '
+              'per step with the first/last line the reader needs; from_file returns a continuous Wea over exactly '
+              'the same period), and for chronologically ordered sparse/windowed/filtered rows (every datetime and '
+              'both truncated values at their own step; rows in any order come back as the same multiset in strictly '
+              'increasing time order, duplicates rejected); the (hour, minute) of every written line reads back '
+              'exactly for all 1440 minutes of the day (robust to 0.47 min of float error; the pinned truncation is '
+              'characterised exactly and refuted); header sign conventions invert (time zone iff a whole number of '
+              'degrees; counterexample UTC+5:30); written values are the truncation toward zero; dictionary round '
+              'trip of continuous data (annual and partial, = w) and of discontinuous data (rows, timestep, leap flag; '
+              'header period re-derived); DAYSIM shift (last ts/2 values to the front, a permutation), '
+              'to_constant_value (only the last two tokens change, line count kept, short line = IndexError), '
+              'count_timesteps; both collections stay aligned, pairwise and at their own time step, under any common '
+              'value-independent index selection.')
 LEVEL_NOTE = ('Trusted: Lean kernel; axioms propext/Classical.choice/Quot.sound only; the correspondence run (agreement '
               'on generated inputs only); CPython string formatting/float parsing modelled at token level (the IEEE '
               'product of the sparse path is checked for all 1440 minutes on every run); collection filters (C02), '
